@@ -190,9 +190,17 @@ theorem valid_sum_infactor_var : (pool[31]'(by decide)).Valid := by
   have hc : FreeIn ρ "i" "a" := h ("i", "a") (by simp)
   simp only [evalP, hc env, sum7]; ring
 
+theorem valid_let_intro : (pool[32]'(by decide)).Valid := by
+  intro ρ h env
+  simp only [pool, List.getElem_cons_succ, List.getElem_cons_zero] at h ⊢
+  have ha : FreeIn ρ "x" "a" := h ("x", "a") (by simp)
+  have hb : FreeIn ρ "x" "b" := h ("x", "b") (by simp)
+  simp only [evalP, ha env, hb env, Env.set, ofNat1]
+  simp
+
 theorem pool_valid : ∀ r ∈ pool, r.Valid := by
   intro r hr
-  have hlen : pool.length = 32 := by decide
+  have hlen : pool.length = 33 := by decide
   obtain ⟨i, hi, rfl⟩ := List.getElem_of_mem hr
   rw [hlen] at hi
   interval_cases i
@@ -228,6 +236,7 @@ theorem pool_valid : ∀ r ∈ pool, r.Valid := by
   · exact valid_sum_infactor_f4
   · exact valid_var_factor
   · exact valid_sum_infactor_var
+  · exact valid_let_intro
 
 /-- the deliberately invalid rules are indeed invalid (witness: constant interpretations) -/
 theorem bad_sum_const_invalid : ¬ (badPool[1]'(by decide)).Valid := by
